@@ -74,13 +74,16 @@ def gen_case(rng):
     if r < 0.8:
         # another read error anywhere
         stop_after = rng.randint(0, len(chunks))
+        tol = rng.choice([0, TOL])
+        # with a non-zero tolerance the error may also come while an interruption is being waited out
+        # (end-of-file or timeout results first, then the hard error): it must still stop the handler
+        pre = [rng.choice(["eof", "timeout"]) for _ in range(rng.choice([0, 0, 1, 1, 2]))] if tol else []
         if stop_after == 0:
-            steps.append("err")
+            steps += pre + ["err"]
         for i, c in enumerate(chunks):
             steps.append("d:" + c.hex())
             if i + 1 == stop_after:
-                steps.append("err")
-        tol = rng.choice([0, TOL])
+                steps += pre + ["err"]
         return ";".join(steps), tol, "other-error", sum(len(c) for c in chunks[:stop_after])
     # silence beyond the tolerance after some chunk: EOF, a long pause, EOF, EOF ...
     stop_after = rng.randint(1, len(chunks))
